@@ -44,9 +44,23 @@ def make_metadata(md):
                                   edge_props_metadata=pm(md.get("edge_props", [])))
 
 
-def expected_graph(g, md):
-    """the graph the reader must return: the one given to the writer; documented addition (write_arrays docstring):
-    on an EMPTY graph every axis named in the metadata that has no node property gets an empty float64 one"""
+def apply_unsquish(props, uns):
+    """documented `props_unsquish`: the 2-D property `name` is stored as one 1-D property per column"""
+    props = dict(props)
+    for name, news in (uns or {}).items():
+        p = props[name]
+        for i, nn in enumerate(news):
+            props[nn] = {"values": p["values"][:, i], "missing": p["missing"]}
+        del props[name]
+    return props
+
+
+def expected_graph(g, md, node_uns=None, edge_uns=None):
+    """the graph the reader must return: the one given to the writer; documented additions (write_arrays docstring):
+    on an EMPTY graph every axis named in the metadata that has no node property gets an empty float64 one;
+    unsquished properties come back as their columns"""
+    if node_uns or edge_uns:
+        g = {**g, "node_props": apply_unsquish(g["node_props"], node_uns), "edge_props": apply_unsquish(g["edge_props"], edge_uns)}
     if md.get("axes") and len(g["node_ids"]) == 0 and g["node_props"] is not None:
         extra = {a: {"values": np.empty((0,), dtype="float64"), "missing": None} for a in md["axes"] if a not in g["node_props"]}
         return {**g, "node_props": {**g["node_props"], **extra}}
@@ -87,8 +101,8 @@ def impl_run(case):
             obs["read_msg"] = str(e)[:200]
             return obs
         obs["inmem"] = R.enc_inmem(o)
-        if not case.get("node_unsquish") and not case.get("edge_unsquish"):
-            obs["spec"] = R.same_graph(expected_graph(g, md), o)
+        if wf_case(case):
+            obs["spec"] = R.same_graph(expected_graph(g, md, case.get("node_unsquish"), case.get("edge_unsquish")), o)
         md_out = o["metadata"]
         obs["md_props"] = {"node": sorted([k, v.dtype, v.varlength] for k, v in md_out.node_props_metadata.items()),
                            "edge": sorted([k, v.dtype, v.varlength] for k, v in md_out.edge_props_metadata.items())}
@@ -131,6 +145,11 @@ def wf_case(case):
             return False
     nn = {nm for nm, _ in g["node_props"]}
     en = {nm for nm, _ in g["edge_props"]}
+    # caller metadata must describe properties that end up stored (an unsquished property is replaced by its columns)
+    nn_stored = (nn - set(case.get("node_unsquish") or {})) | {x for v in (case.get("node_unsquish") or {}).values() for x in v}
+    en_stored = (en - set(case.get("edge_unsquish") or {})) | {x for v in (case.get("edge_unsquish") or {}).values() for x in v}
+    if not {k for k, *_ in md.get("node_props", [])} <= nn_stored or not {k for k, *_ in md.get("edge_props", [])} <= en_stored:
+        return False
     if not {k for k, *_ in md.get("node_props", [])} <= nn or not {k for k, *_ in md.get("edge_props", [])} <= en:
         return False
     if md.get("axes") is not None:
@@ -145,8 +164,20 @@ def wf_case(case):
             v = p["values"]
             if "obj" in v or p["missing"] is not None or len(v["shape"]) != 1 or v["dtype"] == "str":
                 return False
-    if case.get("node_unsquish") or case.get("edge_unsquish"):
-        return False
+    for uns, props in ((case.get("node_unsquish"), g["node_props"]), (case.get("edge_unsquish"), g["edge_props"])):
+        if not uns:
+            continue
+        if md.get("axes") is not None:
+            return False
+        names = {nm for nm, _ in props}
+        d = dict(props)
+        new = [x for news in uns.values() for x in news]
+        if len(set(new)) != len(new) or any(x in names or not R.valid_name(x) for x in new):
+            return False
+        for name, news in uns.items():
+            if name not in d or "obj" in d[name]["values"] or len(d[name]["values"]["shape"]) != 2 \
+                    or d[name]["values"]["shape"][1] != len(news):
+                return False
     return True
 
 
@@ -282,6 +313,22 @@ def special_cases():
                 "md": {"node_props": [["t", "int8", True], ["x", "int32", False]]}, "origin": "special-md"})
     out.append({"g": {**base, "node_props": [t], "edge_props": []},
                 "md": {"node_props": [["ghost", "int8", False]]}, "origin": "special-md-ghost"})
+    # unsquish: a 2-D property stored as one property per column (documented), and its error branch
+    pos = ["pos", {"values": det_array("float32", [3, 2], 4), "missing": {"dtype": "bool", "shape": [3], "flat": [False, True, False]}}]
+    pos_f = ["pos", {"values": {**det_array("int16", [3, 3], 5), "layout": "F"}, "missing": None}]
+    ew = ["w", {"values": det_array("uint8", [2, 2], 1), "missing": None}]
+    out.append({"g": {**base, "node_props": [pos, x], "edge_props": []}, "node_unsquish": {"pos": ["py", "px"]}, "origin": "special-unsquish"})
+    out.append({"g": {**base, "node_props": [x, pos_f], "edge_props": [ew]}, "node_unsquish": {"pos": ["a", "b", "c"]},
+                "edge_unsquish": {"w": ["w0", "w1"]}, "origin": "special-unsquish"})
+    out.append({"g": {**base, "node_props": [pos], "edge_props": []}, "node_unsquish": {"pos": ["only-one"]}, "origin": "unsquish-fewer-names"})
+    out.append({"g": {**base, "node_props": [pos], "edge_props": []}, "node_unsquish": {"pos": ["a", "b", "c"]}, "origin": "unsquish-too-many-names"})
+    out.append({"g": {**base, "node_props": [pos, x], "edge_props": []}, "node_unsquish": {"pos": ["x", "y"]}, "origin": "unsquish-name-collision"})
+    out.append({"g": {**base, "node_props": [pos], "edge_props": []}, "node_unsquish": {"pos": ["pos", "q"]}, "origin": "unsquish-own-name"})
+    out.append({"g": {**base, "node_props": [x], "edge_props": []}, "node_unsquish": {"x": ["a"]}, "origin": "unsquish-1d"})
+    out.append({"g": {**base, "node_props": [x], "edge_props": []}, "node_unsquish": {"nope": ["a"]}, "origin": "unsquish-absent"})
+    out.append({"g": {**base, "edge_props": [], "node_props": [["v", {"values": {"obj": [
+        det_array("int8", [2]), det_array("int8", [1]), det_array("int8", [0])]}, "missing": None}]]},
+        "node_unsquish": {"v": ["a"]}, "origin": "unsquish-vlen"})
     # error branch
     out.append({"g": {"node_ids": nid, "edge_ids": {"dtype": "int64", "shape": [1, 2], "flat": [0, 0]}, "node_props": [], "edge_props": []},
                 "origin": "err-id-dtype-mismatch"})
@@ -310,6 +357,13 @@ def random_case(rng, quick):
         if ok_axes or g["node_ids"]["shape"][0] == 0:
             c["md"] = {"axes": (ok_axes[:2] if ok_axes else []) + (["t_abs"] if g["node_ids"]["shape"][0] == 0 else [])}
     c["md"] = {**(c.get("md") or {}), "directed": rng.random() < 0.5}
+    if "axes" not in c["md"] and rng.random() < 0.15:
+        for key, ukey in (("node_props", "node_unsquish"), ("edge_props", "edge_unsquish")):
+            cand = [(nm, p) for nm, p in g[key] if "obj" not in p["values"] and len(p["values"]["shape"]) == 2]
+            if cand and rng.random() < 0.7:
+                nm, p = rng.choice(cand)
+                w = p["values"]["shape"][1] + rng.choice([0, 0, 0, 0, -1, 1])
+                c[ukey] = {nm: [f"{nm}#{i}" for i in range(max(w, 0))]}
     return c
 
 
@@ -380,7 +434,10 @@ def classify_spec(ck, case, obs, wf):
     """the specification verdict on the implementation's behaviour (no model involved)"""
     if not wf:
         # error branch: a malformed graph must be refused by ValueError / TypeError (never accepted silently
-        # with a wrong read-back, never an unrelated exception)
+        # with a wrong read-back, never an unrelated exception).  Malformed *unsquish arguments* are outside the
+        # property (correspondence only).
+        if case.get("node_unsquish") or case.get("edge_unsquish"):
+            return
         if obs["write"] not in ("ValueError", "TypeError"):
             if obs["write"] == "ok":
                 return  # accepted although outside the property's domain: nothing is claimed
